@@ -1484,5 +1484,180 @@ pub open spec fn fsm_ready(folds: Folds, fid: u32) -> bool { folds.contains_key(
         fsm_monotone(old(trace_ctx).folds@, final(trace_ctx).folds@),
 //@ end
 
+// an event of one round of fold `fid` with body `head`
+pub open spec fn round_ev(e: TEv, fid: int, head: int) -> bool {
+    match e {
+        TEv::IterationStart { id, .. } => id == fid,
+        TEv::GenerationEnd { id, .. } => id == fid,
+        TEv::Child { id } => id == head,
+        _ => false,
+    }
+}
+pub open spec fn only_round_events(t: TLog, fid: int, head: int) -> bool { forall|j: int| 0 <= j < t.len() ==> round_ev(#[trigger] t[j], fid, head) }
+pub proof fn lemma_round_events(t: TLog, c: Log, its: vstd::seq::Seq<IterableDyn>, k: int, fid: u32, name: Chars, head: int, last: Option<int>)
+    requires round_explained(t, c, its, k, fid, name, head, last)
+    ensures only_round_events(t, fid as int, head)
+    decreases k
+{
+    if k > 0 {
+        if its[k - 1].vals@.len() == 0 {
+            lemma_round_events(t, c, its, k - 1, fid, name, head, last);
+        } else {
+            let t0 = t.take(t.len() - 3);
+            lemma_round_events(t0, c.drop_last(), its, k - 1, fid, name, head, last);
+            assert forall|j: int| 0 <= j < t.len() implies round_ev(#[trigger] t[j], fid as int, head) by {
+                if j < t.len() - 3 { assert(t[j] == t0[j]); }
+            }
+        }
+    }
+}
+pub proof fn lemma_or_complete_concat(a: Log, b: Log)
+    ensures or_complete(a + b) == (or_complete(a) || or_complete(b))
+    decreases b.len()
+{
+    if b.len() == 0 {
+        assert(a + b =~= a);
+    } else {
+        lemma_or_complete_concat(a, b.drop_last());
+        assert((a + b).drop_last() =~= a + b.drop_last());
+        assert((a + b).last() == b.last());
+    }
+}
+
+// C13 / call order: a fold over a stream. The trace handler is told the fold starts (a merge error ends it there, nothing runs);
+// then rounds: what the cursor hands out is run through `execute_iterations` (iteration start / body / generation end per
+// generation) until the cursor is exhausted; then the subgraph is complete iff some generation's body left it complete, and the
+// trace handler is told the fold ends. A stream fold never fails with a catchable error.
+pub open spec fn stream_fold_spec(head: int, c0: ExecutionCtx, c1: ExecutionCtx, t0: TraceHandler, t1: TraceHandler, r: ExecutionResult<()>) -> bool {
+    let n0 = t0.log@.len() as int;
+    let m0 = c0.log@.len() as int;
+    &&& t0.log@.is_prefix_of(t1.log@) && c0.log@.is_prefix_of(c1.log@)
+    &&& t1.log@.len() > n0 && t1.log@[n0] is FoldStart
+    &&& !t1.log@[n0]->FoldStart_ok ==> t1.log@.len() == n0 + 1 && c1.log@ == c0.log@ && (r matches Err(e) && is_trace_error(e))
+    &&& r matches Err(e) ==> !catchable(e)
+    &&& r is Ok ==> {
+            let fid = t1.log@[n0]->FoldStart_id;
+            &&& t1.log@[n0]->FoldStart_ok
+            // ... FoldEnd is the last call, for the same fold id, and everything in between is rounds of this fold
+            &&& t1.log@.len() >= n0 + 2 && t1.log@.last() == (TEv::FoldEnd { id: fid, ok: true })
+            &&& only_round_events(t1.log@.subrange(n0 + 1, t1.log@.len() - 1), fid, head)
+            // "if fold finishes a run for at least one generation the fold is marked as complete"
+            &&& c1.subgraph_completeness == or_complete(c1.log@.skip(m0))
+        }
+}
+
+// (rewrites: the closure parameter and its two calls become the StreamAccessor shim and `.call(..)`; `&impl ToString` the local
+//  trait; `Option<Rc<_>>::clone` the verified `clone_opt_rc`; the attribute waives the termination proof of the `while let`: the
+//  real loop ends only because Stream::add_value refuses the 1024th value -- unit streams -- which is outside this function)
+//@ lift air/src/execution_step/instructions/fold_stream/stream_execute_helpers.rs :: fn execute_with_stream
+//@ props C01 C13
+//@ ret r
+//@ sig 1 "fn execute_with_stream" => "#[verifier::exec_allows_no_decreases_clause] fn execute_with_stream"
+//@ sig 1 "get_mut_stream: impl for<'ctx> Fn(&'ctx mut ExecutionCtx<'_>) -> &'ctx mut Stream" => "get_mut_stream: StreamAccessor"
+//@ sig 1 "&impl ToString" => "&impl ToStr"
+//@ rewrite 2 "get_mut_stream(exec_ctx)" => "get_mut_stream.call(exec_ctx)"
+//@ rewrite 1 "last_instruction.clone()" => "clone_opt_rc(&last_instruction)"
+//@ before "let mut recursive_stream = RecursiveStreamCursor::new();"
+    let ghost n0 = old(trace_ctx).log@.len() as int;
+    let ghost m0 = old(exec_ctx).log@.len() as int;
+    let ghost head = instruction.id();
+    proof {
+        assert(trace_ctx.log@.subrange(n0 + 1, trace_ctx.log@.len() as int).len() == 0);
+        assert(exec_ctx.log@.skip(m0).len() == 0);
+    }
+//@ loop 0
+        invariant
+            n0 == old(trace_ctx).log@.len(), m0 == old(exec_ctx).log@.len(), head == instruction.id(),
+            n0 + 1 <= trace_ctx.log@.len(), m0 <= exec_ctx.log@.len(),
+            trace_ctx.log@.take(n0) =~= old(trace_ctx).log@, exec_ctx.log@.take(m0) =~= old(exec_ctx).log@,
+            trace_ctx.log@[n0] == (TEv::FoldStart { id: fold_id as int, ok: true }),
+            only_round_events(trace_ctx.log@.subrange(n0 + 1, trace_ctx.log@.len() as int), fold_id as int, head),
+            iters_wf(exec_ctx.iters()), get_mut_stream.present(exec_ctx),
+            fsm_ready(trace_ctx.folds@, fold_id),
+            fresh_iterables(cursor_state), dense(handed(cursor_state)), cursor_state is Continue ==> handed(cursor_state).len() > 0,
+            observer.subgraph_complete == or_complete(exec_ctx.log@.skip(m0)),
+//@ before "let ingredients ="
+        let ghost t_in = trace_ctx.log@;
+        let ghost c_in = exec_ctx.log@;
+        proof {
+            assert forall|i: int| 0 <= i < iterables@.len() implies (#[trigger] iterables@[i]).cursor@ == 0 && iterables@[i].wf() && iterables@[i].vals@.len() > 0 by {
+                assert(handed(cursor_state)[i] == iterables@[i].vals@);
+            }
+        }
+//@ before "cursor_state = recursive_stream.met_iteration_end(get_mut_stream(exec_ctx));"
+        proof {
+            let t_new = trace_ctx.log@.skip(t_in.len() as int);
+            let c_new = exec_ctx.log@.skip(c_in.len() as int);
+            lemma_round_events(t_new, c_new, derefs(iterables@), iterables@.len() as int, fold_id, iterable_name@, head, opt_id(last_instruction));
+            assert(trace_ctx.log@ =~= t_in + t_new);
+            assert(exec_ctx.log@ =~= c_in + c_new);
+            assert forall|j: int| 0 <= j < trace_ctx.log@.len() - (n0 + 1) implies
+                round_ev(#[trigger] trace_ctx.log@.subrange(n0 + 1, trace_ctx.log@.len() as int)[j], fold_id as int, head) by {
+                if j < t_in.len() - (n0 + 1) {
+                    assert(trace_ctx.log@.subrange(n0 + 1, trace_ctx.log@.len() as int)[j] == t_in.subrange(n0 + 1, t_in.len() as int)[j]);
+                } else {
+                    assert(trace_ctx.log@.subrange(n0 + 1, trace_ctx.log@.len() as int)[j] == t_new[j - (t_in.len() - (n0 + 1))]);
+                }
+            }
+            assert(exec_ctx.log@.skip(m0) =~= c_in.skip(m0) + c_new);
+            lemma_or_complete_concat(c_in.skip(m0), c_new);
+            assert(trace_ctx.log@.take(n0) =~= t_in.take(n0));
+            assert(exec_ctx.log@.take(m0) =~= c_in.take(m0));
+        }
+//@ before "observer.update_completeness(exec_ctx);"
+    let ghost t_end = trace_ctx.log@;
+//@ before "Ok(())"
+    proof {
+        assert(trace_ctx.log@ =~= t_end.push(TEv::FoldEnd { id: fold_id as int, ok: true }));
+        assert(trace_ctx.log@.subrange(n0 + 1, trace_ctx.log@.len() - 1) =~= t_end.subrange(n0 + 1, t_end.len() as int));
+        assert(trace_ctx.log@.take(n0) =~= t_end.take(n0));
+    }
+//@ spec
+    requires iters_wf(old(exec_ctx).iters()), streams_ok(*old(exec_ctx)),
+        // the `.unwrap()` inside the closure: the stream was found by the caller just before
+        get_mut_stream.present(old(exec_ctx)),
+    ensures stream_fold_spec(instruction.id(), *old(exec_ctx), *final(exec_ctx), *old(trace_ctx), *final(trace_ctx), r),
+        iters_wf(final(exec_ctx).iters()),
+//@ end
+
+// ================================================================ fold_stream.rs, fold_stream_map.rs
+// (rewrite: the definition of the closure `get_mut_stream` -- `&|exec_ctx| exec_ctx.streams.get_mut(name, position).unwrap()` as a
+//  `&dyn for<'ctx> Fn(..) -> &'ctx mut Stream` -- becomes the construction of the StreamAccessor shim that stands for it)
+impl<'i> ast::FoldStream<'i> {
+//@ lift air/src/execution_step/instructions/fold_stream.rs :: impl<'i> ExecutableInstruction<'i> for FoldStream<'i> :: fn execute
+//@ name FoldStream::execute
+//@ props C01 C13
+//@ ret r
+//@ rewrite 1 "let get_mut_stream: &dyn for<'ctx> Fn(&'ctx mut ExecutionCtx<'_>) -> &'ctx mut Stream =\n            &|exec_ctx: &mut ExecutionCtx<'_>| -> &mut Stream {\n                exec_ctx.streams.get_mut(iterable.name, iterable.position).unwrap()\n            };" => "let get_mut_stream = StreamAccessor::for_stream(iterable.name, iterable.position);"
+//@ rewrite 1 "self.last_instruction.clone()" => "clone_opt_rc(&self.last_instruction)"
+//@ spec
+        requires iters_wf(old(exec_ctx).iters()), streams_ok(*old(exec_ctx))
+        ensures
+            // "having empty streams means that it haven't been met yet, and it's needed to wait": Ok, incomplete, nothing runs
+            !old(exec_ctx).streams.tbl@.contains_key((self.iterable.name@, self.iterable.position.0)) ==>
+                r is Ok && !final(exec_ctx).subgraph_completeness && final(exec_ctx).same_but_complete(old(exec_ctx)) && *final(trace_ctx) == *old(trace_ctx),
+            old(exec_ctx).streams.tbl@.contains_key((self.iterable.name@, self.iterable.position.0)) ==>
+                stream_fold_spec(self.instruction.id(), *old(exec_ctx), *final(exec_ctx), *old(trace_ctx), *final(trace_ctx), r),
+            iters_wf(final(exec_ctx).iters()),
+//@ end
+}
+impl<'i> ast::FoldStreamMap<'i> {
+//@ lift air/src/execution_step/instructions/fold_stream_map.rs :: impl<'i> ExecutableInstruction<'i> for FoldStreamMap<'i> :: fn execute
+//@ name FoldStreamMap::execute
+//@ props C01 C13
+//@ ret r
+//@ rewrite 1 "let get_mut_stream: &dyn for<'ctx> Fn(&'ctx mut ExecutionCtx<'_>) -> &'ctx mut Stream =\n            &|exec_ctx: &mut ExecutionCtx<'_>| -> &mut Stream {\n                exec_ctx\n                    .stream_maps\n                    .get_mut(iterable.name, iterable.position)\n                    .unwrap()\n                    .get_mut_stream_ref()\n            };" => "let get_mut_stream = StreamAccessor::for_stream_map(iterable.name, iterable.position);"
+//@ rewrite 1 "self.last_instruction.clone()" => "clone_opt_rc(&self.last_instruction)"
+//@ spec
+        requires iters_wf(old(exec_ctx).iters()), streams_ok(*old(exec_ctx))
+        ensures
+            !old(exec_ctx).stream_maps.tbl@.contains_key((self.iterable.name@, self.iterable.position.0)) ==>
+                r is Ok && !final(exec_ctx).subgraph_completeness && final(exec_ctx).same_but_complete(old(exec_ctx)) && *final(trace_ctx) == *old(trace_ctx),
+            old(exec_ctx).stream_maps.tbl@.contains_key((self.iterable.name@, self.iterable.position.0)) ==>
+                stream_fold_spec(self.instruction.id(), *old(exec_ctx), *final(exec_ctx), *old(trace_ctx), *final(trace_ctx), r),
+            iters_wf(final(exec_ctx).iters()),
+//@ end
+}
+
 } // verus!
 fn main() {}
